@@ -16,10 +16,11 @@ static long argbuf[SLOTS + 2], resbuf[SLOTS + 2], idbuf[SLOTS + 2], fnbuf[SLOTS 
 static struct { long guard0; myth_thread_attr_t a[SLOTS]; long guard1; } attrbuf;
 static long n; static size_t arg_st, res_st, id_st, fn_st, at_st; static int many;
 static int argcount[NMAX + 1]; static int fncount[NMAX + 1]; static int bad_arg, bad_attr, n_create, n_join;
-static struct myth_thread TOK[NMAX + 2]; static int cur_tok, next_tok = 1;
-myth_thread_t myth_self(void){ return &TOK[cur_tok]; }
+/* thread ids are addresses of small tokens (an array of real 4 KB descriptors made the SAT conversion run out of memory) */
+static long TOKB[NMAX + 2]; static void *TOKRES[NMAX + 2]; static int cur_tok, next_tok = 1;
+myth_thread_t myth_self(void){ return (myth_thread_t)&TOKB[cur_tok]; }
 
-static int arg_index(void *p){ long i; for (i = 0; i < NMAX; i++) if (i < n && p == (void*)((char*)(argbuf + 1) + i * arg_st)) return (int)i; return -1; }
+static int arg_index(void *p){ long off = (char*)p - (char*)(argbuf + 1); if (off < 0 || off % (long)arg_st != 0) return -1; long i = off / (long)arg_st; return (i >= 0 && i < n) ? (int)i : -1; }
 static void *item(int k, void *arg){
   int i = arg_index(arg);
   if (i < 0) bad_arg = 1; else { argcount[i]++; if (!many && k != i) bad_arg = 1; }
@@ -32,19 +33,23 @@ static void *f3(void *a){ return item(3, a); } static void *f4(void *a){ return 
 /* stands for myth_create_ex_body: child-first, run to completion */
 int stub_create(myth_thread_t *id, myth_thread_attr_t *attr, myth_func_t func, void *arg){
   n_create++;
-  if (attr) { long j; int ok = 0; for (j = 0; j < NMAX; j++) if (j < n && (char*)attr == (char*)attrbuf.a + j * at_st) ok = 1; if (!ok) bad_attr = 1; }
-  else if (at_st != 0 && n_create > 0 && 0) bad_attr = 1;
+  if (attr) { long off = (char*)attr - (char*)attrbuf.a; if (off < 0 || off % (long)at_st != 0 || off / (long)at_st >= n) bad_attr = 1; }
   int saved = cur_tok; int me = next_tok < NMAX + 1 ? next_tok++ : NMAX + 1;
-  cur_tok = me; *id = &TOK[me];
-  TOK[me].result = func(arg);
+  cur_tok = me; *id = (myth_thread_t)&TOKB[me];
+  CHECK(func == myth_create_join_various_ex_aux, "C17 the helper creates threads that run its own splitting routine");
+  TOKRES[me] = myth_create_join_various_ex_aux(arg);     /* direct call: no function-pointer fan-out in the query */
   cur_tok = saved;
   return 0;
 }
-int stub_join(myth_thread_t th, void **result){ n_join++; if (result) *result = th->result; return 0; }
+int stub_join(myth_thread_t th, void **result){ n_join++; long k = (long *)th - TOKB; if (result) *result = (k >= 0 && k < NMAX + 2) ? TOKRES[k] : 0; return 0; }
 
 int main(void){
   long i;
+#ifdef NFIX   /* the number of items is fixed per query (it determines the shape of the splitting recursion); everything else stays symbolic */
+  n = NFIX;
+#else
   n = VERIF_CHOICE(); ASSUME(0 <= n && n <= NMAX);
+#endif
   many = VERIF_CHOICE() & 1;
 #ifdef ST_ARG     /* strides fixed per job (symbolic strides turn every slot access into a symbolic-offset byte access: no verdict in 40 min) */
   arg_st = ST_ARG; res_st = ST_RES; id_st = ST_ID; fn_st = ST_FN; at_st = ST_AT * sizeof(myth_thread_attr_t);
@@ -77,15 +82,14 @@ int main(void){
   if (many) CHECK(fncount[0] == n, "C17 create_join_many applies the one function n times");
   /* memory outside the slots untouched */
   CHECK(argbuf[0] == 0x11 && resbuf[0] == 0x22 && idbuf[0] == 0x33 && attrbuf.guard0 == 0x44 && attrbuf.guard1 == 0x44, "C17 guard words before the arrays untouched");
-  for (i = 0; i < SLOTS; i++) {
-    long used_r = 0, used_i = 0, j;
-    for (j = 0; j < NMAX; j++) { if (j < n && have_res && (char*)(resbuf + 1 + i) == (char*)(resbuf + 1) + j * res_st) used_r = 1;
-                                 if (j < n && have_ids && (char*)(idbuf + 1 + i) == (char*)(idbuf + 1) + j * id_st) used_i = 1; }
+  for (i = 0; i < SLOTS; i++) {      /* slot i (8-byte words) is a strided slot iff i is a multiple of stride/8 below n */
+    long rw = (long)res_st / 8, iw = (long)id_st / 8;
+    int used_r = have_res && (i % rw == 0) && (i / rw < n), used_i = have_ids && (i % iw == 0) && (i / iw < n);
     if (!used_r) CHECK(resbuf[1 + i] == 0x22, "C17 no result memory outside the strided slots is touched");
     if (!used_i) CHECK(idbuf[1 + i] == 0x33, "C17 no id memory outside the strided slots is touched");
     CHECK(argbuf[1 + i] == 0x11, "C17 the argument array is not written");
   }
   if (n == 0) CHECK(n_create == 0 && fncount[0] == 0, "C17 n = 0 does nothing");
-  WITNESS_IF(n == NMAX);
+  WITNESS();
   return 0;
 }
